@@ -52,6 +52,7 @@ Record wr_case := mkWrCase {
   w_chain : list plug; w_ae : bytes;
   w_declared : option Z; w_actual : Z;           (* request body: declared length (None = chunked), bytes sent *)
   w_head : bool;                                  (* HEAD request: no body reaches the client *)
+  w_abort : bool;                                 (* the handler panics with ErrAbortHandler when a Write is refused *)
   w_script : list wcall;
   w_obs : list Z
   (* observed: [handler called; request bytes the handler could read; same_as_direct; status; ct; ce; decoded;
@@ -66,12 +67,33 @@ Definition sort_kv (l : hmap) : hmap := fold_right sort_insert [] l.
 
 Definition oz (o : option Z) : Z := match o with Some z => z | None => -1 end.
 
+(* the chain when the handler is aborted: nothing runs after next.ServeHTTP (no finishing of size_limit, no gzip Finish) *)
+Definition plug_transform_aborted (ae : bytes) (p : plug) (cs : list wcall) : list wcall :=
+  match p with
+  | PLogging => lg_run false cs
+  | PSizeLimit _ maxresp => snd (sl_run (slw0 maxresp) cs)
+  | PGzip cfg => if contains_gzip ae then snd (gz_run cfg gzw0 cs) else cs
+  end.
+Definition innermost_limit (chain : list plug) : option Z :=
+  match rev chain with PSizeLimit _ m :: _ => Some m | _ => None end.
+(* Some prefix = the handler aborted after that prefix of its script *)
+Definition aborted_prefix (k : wr_case) : option (list wcall) :=
+  if w_abort k then
+    match innermost_limit (w_chain k) with
+    | Some m => let '(pre, failed) := sl_cut (slw0 m) (w_script k) in if failed then Some pre else None
+    | None => None
+    end
+  else None.
+
 (* predicted observation; ct is only predicted when the script sets it (the server may sniff one otherwise) *)
 Definition predict (k : wr_case) : list Z :=
   match chain_request (w_chain k) (w_declared k) (w_actual k) with
   | None => [0; 0; -9; 413]
   | Some readable =>
-      let v := view (base_run base0 (chain_transform (w_ae k) (w_chain k) (w_script k))) in
+      let v := match aborted_prefix k with
+               | Some pre => view_aborted (base_run base0 (fold_right (plug_transform_aborted (w_ae k)) pre (w_chain k)))
+               | None => view (base_run base0 (chain_transform (w_ae k) (w_chain k) (w_script k)))
+               end in
       [1; readable; -9; v_status v; oz (v_ct v); oz (v_ce v); (if w_head k then 0 else oz (v_decoded v)); zlen (v_interim v)] ++ v_interim v
       ++ [zlen (v_app v)] ++ flat_kv (sort_kv (v_app v))
   end.
@@ -90,6 +112,7 @@ Definition obs_match (pred obs : list Z) : Z :=
         end in go 0 pred obs
   end.
 
+Definition handler_status_of (cs : list wcall) : Z := v_status (view (base_run base0 cs)).
 Fixpoint has_sl (chain : list plug) : bool := match chain with [] => false | PSizeLimit _ _ :: _ => true | _ :: t => has_sl t end.
 Fixpoint has_gz (chain : list plug) : bool := match chain with [] => false | PGzip _ :: _ => true | _ :: t => has_gz t end.
 Fixpoint min_resp (chain : list plug) : Z :=
@@ -120,6 +143,24 @@ Definition within_limits (k : wr_case) : bool :=
 Definition c14_transparent (k : wr_case) : bool :=
   if has_sl (w_chain k) && negb (has_gz (w_chain k)) && within_limits k && wf_script (w_script k)
   then Z.eqb (nth 2 (w_obs k) 0) 1 else true.
+
+(* 413 if the excess is detected before anything was sent: the first refused write comes before any accepted write or flush,
+   and the response is not a HEAD / gzip one.  Also when the handler is aborted right after (the proxy's behaviour). *)
+Fixpoint nothing_sent_before_refusal (w : slw) (cs : list wcall) : bool :=
+  match cs with
+  | [] => false
+  | CWrite p :: t => if sl_reached w || (sl_limit w <? sl_written w + payload_len p) then true else false
+  | CFlush :: _ => false
+  | c :: t => nothing_sent_before_refusal (fst (sl_step w c)) t
+  end.
+Definition c14_413 (k : wr_case) : bool :=
+  match w_chain k with
+  | [PSizeLimit _ m] | [PLogging; PSizeLimit _ m] =>
+      if Z.eqb (nth 0 (w_obs k) 0) 1 && negb (w_head k) && wf_script (w_script k) && nothing_sent_before_refusal (slw0 m) (w_script k)
+         && body_allowed (handler_status_of (w_script k))
+      then Z.eqb (nth 3 (w_obs k) 0) 413 else true
+  | _ => true
+  end.
 
 (* C15 monitors: decoding what the client received under the headers it received gives the stream bytes the
    handler wrote (within the size limit, if any), with the handler's status; compressed only if allowed *)
@@ -167,7 +208,7 @@ Definition c15_identical_unless_eligible (k : wr_case) : bool :=
                    mon_c15_plain_identical; nt_c14; nt_c15] *)
 Definition eval_wr_case (k : wr_case) : list Z :=
   [ obs_match (predict k) (w_obs k);
-    b2z (c14_bound k); b2z (c14_request k); b2z (c14_transparent k);
+    b2z (c14_bound k && c14_413 k); b2z (c14_request k); b2z (c14_transparent k);
     b2z (c15_decodes k); b2z (c15_only_if k && c15_conditions k); b2z (c15_identical_when_plain k && c15_identical_unless_eligible k);
     b2z (has_sl (w_chain k) && ((Z.abs (written_total (w_script k) - min_resp (w_chain k)) <=? 1)
                                 || negb (body_allowed (handler_status (w_script k)))
